@@ -7,15 +7,14 @@ From Verif.C11 Require Import Model Proofs.
 (* ---------------------------------------------------------------------------------------- *)
 (* checks_eq_spec                                                                            *)
 
-Theorem checks_eq_spec : forall c t, wf t = true -> call_in_f6c c = false ->
-  goja_check c t = spec_check c t.
+Theorem checks_eq_spec : forall c t, wf t = true -> goja_check c t = spec_check c t.
 Proof.
-  intros c t Hwf Hf6. destruct c; simpl in *.
+  intros c t Hwf. destruct c; simpl in *.
   - apply getproto_eq.
   - apply setproto_eq.
   - apply isext_eq.
   - apply prevext_eq.
-  - apply gopd_eq_partial. destruct r; auto.
+  - apply gopd_eq.
   - destruct (desc_invalid d) eqn:Hinv; [reflexivity|]. apply define_eq; assumption.
   - apply has_eq.
   - apply get_eq.
@@ -24,14 +23,6 @@ Proof.
   - apply ownkeys_eq; assumption.
   - reflexivity.
   - reflexivity.
-Qed.
-
-(* every trap except getOwnPropertyDescriptor: unconditional *)
-Theorem checks_eq_spec_other_traps : forall c t, wf t = true ->
-  match c with CGopd _ _ => False | _ => True end ->
-  goja_check c t = spec_check c t.
-Proof.
-  intros c t Hwf H. apply checks_eq_spec; [assumption|]. destruct c; try reflexivity; contradiction.
 Qed.
 
 Definition acc_target : target := mkT true None [(1%N, PAcc (Some 1%N) None false false)].
@@ -46,14 +37,11 @@ Theorem f6_repaired :
   goja_check (CDefine 1%N (mkD None None None None (Some (Some 1%N)) None) true) data_target = RTypeError.
 Proof. vm_compute. repeat split; reflexivity. Qed.
 
-(* an accessor result without getter and setter is reported as a data property *)
-Theorem gopd_result_refuted :
-  wf undef_acc_target = true /\
+(* the former witness of F6c now agrees with the spec (regression) *)
+Theorem f6c_repaired :
   goja_check (CGopd 1%N (GDesc (of_prop (PAcc None None true true)))) undef_acc_target
-    = RDesc (Some (PData vundef false true true)) /\
-  spec_check (CGopd 1%N (GDesc (of_prop (PAcc None None true true)))) undef_acc_target
     = RDesc (Some (PAcc None None true true)).
-Proof. vm_compute. repeat split; reflexivity. Qed.
+Proof. reflexivity. Qed.
 
 (* ---------------------------------------------------------------------------------------- *)
 (* property tables                                                                           *)
@@ -263,44 +251,21 @@ Proof.
     (destruct HA as [c [Hc Hs]]; [discriminate|]; rewrite Hc, Hs; reflexivity).
 Qed.
 
-(* the same through goja's checks; the only exception left is finding F6c: getOwnPropertyDescriptor
-   of an accessor property that has neither a getter nor a setter function *)
-Definition f6c_free (o : op) (t : target) : bool :=
-  match o with
-  | OGopd k => match find_prop k (t_props t) with Some (PAcc None None _ _) => false | _ => true end
-  | _ => true
-  end.
-
-Lemma honest_call_f6c_free : forall w o t, f6c_free o t = true ->
-  forall c, honest_call o (fst (ord_step w o t)) = Some c -> call_in_f6c c = false.
-Proof.
-  intros w o [ext proto ps] Hfree c Hc. destruct o; simpl in *;
-    try (destruct c; try reflexivity; exfalso;
-         repeat match type of Hc with context [match ?x with _ => _ end] => destruct x; simpl in Hc end; discriminate).
-  destruct (find_prop k ps) as [[v wr e c0|[g|] [s|] e c0]|]; simpl in Hc; inversion Hc; try reflexivity; discriminate.
-Qed.
-
-Theorem goja_forwarding_transparent : forall w n o t, wf t = true -> f6c_free o t = true ->
+(* the same through goja's own checks: no guard left *)
+Theorem goja_forwarding_transparent : forall w n o t, wf t = true ->
   layered goja_check w n o t = ord_step w o t.
 Proof.
-  induction n; intros o t H Hf; simpl; [reflexivity|].
+  induction n; intros o t H; simpl; [reflexivity|].
   rewrite IHn by assumption.
   pose proof (honest_accepted w o t H) as HA.
-  pose proof (honest_call_f6c_free w o t Hf) as HF.
   pose proof (ord_step_wf w o t H) as HW.
-  destruct (ord_step w o t) as [r t']. simpl in HW, HF.
+  destruct (ord_step w o t) as [r t']. simpl in HW.
   destruct r; try reflexivity;
     (destruct HA as [c [Hc Hs]]; [discriminate|]; rewrite Hc;
-     rewrite (checks_eq_spec c t' HW (HF c Hc)), Hs; reflexivity).
+     rewrite (checks_eq_spec c t' HW), Hs; reflexivity).
 Qed.
 
 Definition w0 : world := mkW (fun _ => false) (fun _ => vundef) (fun _ _ => None) (fun f => f).
-
-(* ...and there goja's forwarding proxy still answers differently from the target (F6c) *)
-Theorem goja_forwarding_refuted_f6c :
-  layered goja_check w0 1 (OGopd 1%N) undef_acc_target = (RDesc (Some (PData vundef false true true)), undef_acc_target) /\
-  ord_step w0 (OGopd 1%N) undef_acc_target = (RDesc (Some (PAcc None None true true)), undef_acc_target).
-Proof. split; reflexivity. Qed.
 
 (* ---------------------------------------------------------------------------------------- *)
 (* lies are rejected: the exact sets                                                         *)
@@ -527,11 +492,10 @@ Qed.
 Theorem lying_construct : forall r t, spec_check (CConstruct r) t = RTypeError <-> r = None.
 Proof. intros [o|] t; simpl; split; intros; try discriminate; reflexivity. Qed.
 
-(* the same lies are rejected by goja's own checks (all traps where the equality is unconditional) *)
+(* the same lies are rejected by goja's own checks: every trap *)
 Theorem goja_rejects_lies : forall c t, wf t = true ->
-  match c with CGopd _ _ => False | _ => True end ->
   (goja_check c t = RTypeError <-> spec_check c t = RTypeError).
-Proof. intros c t Hwf H. rewrite (checks_eq_spec_other_traps c t Hwf H). tauto. Qed.
+Proof. intros c t Hwf. rewrite (checks_eq_spec c t Hwf). tauto. Qed.
 
 (* ---------------------------------------------------------------------------------------- *)
 (* revocation                                                                                *)
@@ -548,7 +512,7 @@ Proof. reflexivity. Qed.
 Definition ex_target : target :=
   mkT false (Some 1%N) [(1%N, PData 1%N false true false); (2%N, PAcc None (Some 2%N) false false); (4%N, PData 2%N true true true)].
 
-Example ex_checks_guard : wf ex_target = true /\ call_in_f6c (CGopd 1%N (GDesc (of_prop (PData 1%N false true false)))) = false /\
+Example ex_checks_guard : wf ex_target = true /\
   goja_check (CHas 1%N false) ex_target = RTypeError /\ spec_check (CHas 1%N true) ex_target = RBool true.
 Proof. vm_compute. repeat split; reflexivity. Qed.
 
@@ -562,8 +526,7 @@ Example ex_honest : ord_step w0 (ODefine 4%N (mkD (Some 5%N) None None (Some fal
   = (RBool true, mkT false (Some 1%N) [(1%N, PData 1%N false true false); (2%N, PAcc None (Some 2%N) false false); (4%N, PData 5%N true true false)])
   /\ layered goja_check w0 3 (ODefine 4%N (mkD (Some 5%N) None None (Some false) None None)) ex_target
      = ord_step w0 (ODefine 4%N (mkD (Some 5%N) None None (Some false) None None)) ex_target
-  /\ f6c_free (ODefine 4%N (mkD (Some 5%N) None None (Some false) None None)) ex_target = true
-  /\ f6c_free (OGopd 2%N) ex_target = true /\ layered goja_check w0 2 (OGopd 2%N) ex_target = ord_step w0 (OGopd 2%N) ex_target.
+  /\ layered goja_check w0 2 (OGopd 2%N) ex_target = ord_step w0 (OGopd 2%N) ex_target.
 Proof. vm_compute. repeat split; reflexivity. Qed.
 
 Example ex_lying_get : spec_check (CGet 1%N 2%N) ex_target = RTypeError /\ spec_check (CGet 2%N 1%N) ex_target = RTypeError /\
